@@ -20,7 +20,7 @@ RULE = ("(1) `cooler dump` on generated coolers x option combinations {-r, -r2, 
         "(cooler, option vector)")
 ASSUMPTIONS = ["zoomify resolution-spec spellings are decided in C09's check (shared mechanism)"]
 MIN_NONTRIVIAL = {"quick": 250, "thorough": 2500}
-REQUIRED_FEATURES = ["dump:region", "dump:region2", "dump:fill-lower", "dump:join", "dump:balanced", "dump:annotate",
+REQUIRED_FEATURES = ["file:legacy-without-storage-mode-attribute", "dump:region", "dump:region2", "dump:fill-lower", "dump:join", "dump:balanced", "dump:annotate",
                      "dump:one-based-ids", "dump:one-based-ids-alone", "dump:one-based-starts", "dump:header",
                      "dump:table-bins", "dump:table-chroms", "roundtrip:coo", "roundtrip:bg2", "roundtrip:one-based",
                      "roundtrip:square", "layout:load-nonmonotone", "layout:cload-pairs-nonmonotone", "via:subprocess",
@@ -159,9 +159,17 @@ def dump_case(ctx, cid, rng, idx):
     import cooler
 
     path, bt, n, symm, P, w, gc = mk(ctx, rng, idx)
+    legacy = bool(symm and rng.random() < 0.25)
+    if legacy:
+        # a file written by an early version: symmetric-upper without the (optional) storage-mode attribute
+        import h5py
+        with h5py.File(path, "r+") as f_:
+            del f_.attrs["storage-mode"]
     clr = cooler.Cooler(path)
     chroms = [(c_, e[-1]) for c_, e in bt]
-    with ctx.case(cid, {"bt": bt, "symm": symm, "nnz": len(P)}) as c:
+    with ctx.case(cid, {"bt": bt, "symm": symm, "nnz": len(P), "legacy": legacy}) as c:
+        if legacy:
+            c.feature("file:legacy-without-storage-mode-attribute")
         for rep in range(14):
             opts = {"fill": bool(rng.random() < 0.35), "join": bool(rng.random() < 0.4), "bal": bool(rng.random() < 0.3),
                     "ann": bool(rng.random() < 0.25), "obi": bool(rng.random() < 0.35), "obs": bool(rng.random() < 0.3),
